@@ -484,6 +484,15 @@ fn why_of_validation(e: &ValidationError) -> String {
 /// complaint instead of checking a MAC it is not supposed to carry - also when
 /// the field got there by a flipped bit in transit.
 fn server_side_claim(delivered: &[u8], t: &Option<RawTsig>, got: &str) -> bool {
+    // (The TSIG record as scanned from the message if the caller has none:
+    // in the messages of a sequence after the first the error field is not
+    // even covered by the MAC - only the timers are -, so the model may well
+    // accept what the library rejects as the server's complaint.)
+    let scanned = match scan(delivered) {
+        Scan::One(t) => Some(t),
+        _ => None,
+    };
+    let t = if t.is_some() { t } else { &scanned };
     let claims = |code: u16| delivered.len() >= 4 && delivered[3] & 0x0f == 9 && t.as_ref().is_some_and(|t| t.error == code);
     let yes = (got == "ServerBadSig" && claims(16)) || (got == "ServerBadKey" && claims(17));
     if yes {
@@ -1563,6 +1572,9 @@ fn lib_sequence(w: &World) {
                 return;
             }
             (Err(e), v) => {
+                if server_side_claim(&delivered, &None, &why_of_validation(e)) {
+                    return;
+                }
                 if model_ok {
                     viol("completeness", format!("client-seq-rejected-{}/{}", why_of_validation(e), verdict_name(v)), format!("message {} of {} rejected with {:?} after {:?}; model: {:?}", i, n, e, m, v));
                 }
